@@ -41,6 +41,14 @@ type rconn struct {
 	eof    bool
 	rderr  error
 	closed bool
+	paused bool // the reader stops draining the socket (back-pressure)
+}
+
+func (r *rconn) pause(on bool) {
+	r.mu.Lock()
+	r.paused = on
+	r.cond.Broadcast()
+	r.mu.Unlock()
 }
 
 func newRconn(c net.Conn) *rconn {
@@ -52,6 +60,11 @@ func newRconn(c net.Conn) *rconn {
 	go func() {
 		buf := make([]byte, 8192)
 		for {
+			r.mu.Lock()
+			for r.paused {
+				r.cond.Wait()
+			}
+			r.mu.Unlock()
 			n, err := c.Read(buf)
 			r.mu.Lock()
 			if n > 0 {
@@ -876,7 +889,251 @@ func paceCase(k int) rt.Result {
 	return w.result("pace", len(at) > 2, map[string]int{"real_dials": len(at)})
 }
 
+// readdCase: DeletePeer is still tearing down a session (the update handler is
+// busy) while another goroutine re-adds the same address and the remote
+// reconnects: at no instant may two sessions for the peer be Established (C01).
+func readdCase(k int) rt.Result {
+	peerIP := fmt.Sprintf("127.0.8.%d", 10+k%200)
+	w, err := newWorld("127.0.0.1:0")
+	if err != nil {
+		return rt.Result{Verdict: "inconclusive", Why: err.Error()}
+	}
+	gate := make(chan struct{})
+	var mu sync.Mutex
+	up, maxUp, est, closed := 0, 0, 0, 0
+	entered := make(chan struct{}, 4)
+	pl := &fnPlugin{
+		onEst: func() {
+			mu.Lock()
+			up++
+			est++
+			if up > maxUp {
+				maxUp = up
+			}
+			mu.Unlock()
+		},
+		onUpdate: func() {
+			select {
+			case entered <- struct{}{}:
+			default:
+			}
+			<-gate // the handler is busy until released
+		},
+		onClose: func() { mu.Lock(); up--; closed++; mu.Unlock() },
+	}
+	cfg := corebgp.PeerConfig{RemoteAddress: netip.MustParseAddr(peerIP), LocalAS: lAS, RemoteAS: rAS}
+	if err := w.srv.AddPeer(cfg, pl, corebgp.WithPassive()); err != nil {
+		return rt.Result{Verdict: "inconclusive", Why: err.Error()}
+	}
+	w.serve()
+	dst := fmt.Sprintf("127.0.0.1:%d", w.port())
+	c1, err := dialFrom(peerIP, dst)
+	if err != nil {
+		w.inconclusive("dial: %v", err)
+		close(gate)
+		w.close()
+		return w.result("", false, nil)
+	}
+	r1 := newRconn(c1)
+	if !r1.handshake(0x0a000101, 90) {
+		w.inconclusive("first handshake")
+		close(gate)
+		w.close()
+		return w.result("", false, nil)
+	}
+	r1.send(wire.Update([]byte{0, 0, 0, 0}))
+	select {
+	case <-entered:
+	case <-time.After(5 * time.Second):
+		w.inconclusive("handler not entered")
+		close(gate)
+		w.close()
+		return w.result("", false, nil)
+	}
+	delDone, addDone := make(chan error, 1), make(chan error, 1)
+	go func() { delDone <- w.srv.DeletePeer(cfg.RemoteAddress) }()
+	time.Sleep(50 * time.Millisecond)
+	go func() { addDone <- w.srv.AddPeer(cfg, pl, corebgp.WithPassive()) }()
+	time.Sleep(50 * time.Millisecond)
+	// the remote reconnects while the old session is still being torn down
+	var r2 *rconn
+	if c2, err := dialFrom(peerIP, dst); err == nil {
+		r2 = newRconn(c2)
+		if r2.waitMsgs(1, 700*time.Millisecond) {
+			r2.open(0x0a000101, 90)
+			if r2.waitMsgs(2, 700*time.Millisecond) {
+				r2.send(wire.Keepalive())
+				time.Sleep(300 * time.Millisecond)
+			}
+		}
+	}
+	mu.Lock()
+	m, e, cl := maxUp, est, closed
+	mu.Unlock()
+	if m > 1 {
+		w.violate("two sessions for peer %s Established at once: OnEstablished=%d OnClose=%d while DeletePeer was still tearing down the first session and AddPeer re-added the address", peerIP, e, cl)
+	}
+	close(gate)
+	select {
+	case <-delDone:
+	case <-time.After(10 * time.Second):
+		w.violate("DeletePeer did not return within 10 s after the handler was released")
+	}
+	select {
+	case <-addDone:
+	case <-time.After(10 * time.Second):
+		w.violate("AddPeer did not return")
+	}
+	if r2 != nil {
+		r2.close()
+	}
+	w.close()
+	mu.Lock()
+	if up != 0 {
+		w.violate("after Close %d session(s) still up according to the plugin (OnEstablished=%d OnClose=%d)", up, est, closed)
+	}
+	mu.Unlock()
+	return w.result("readd", true, map[string]int{"real_readd": 1})
+}
+
+type fnPlugin struct {
+	onEst, onUpdate, onClose func()
+}
+
+func (f *fnPlugin) GetCapabilities(corebgp.PeerConfig) []corebgp.Capability { return nil }
+func (f *fnPlugin) OnOpenMessage(corebgp.PeerConfig, netip.Addr, []corebgp.Capability) *corebgp.Notification {
+	return nil
+}
+func (f *fnPlugin) OnEstablished(corebgp.PeerConfig, corebgp.UpdateMessageWriter) corebgp.UpdateMessageHandler {
+	f.onEst()
+	return func(corebgp.PeerConfig, []byte) *corebgp.Notification { f.onUpdate(); return nil }
+}
+func (f *fnPlugin) OnClose(corebgp.PeerConfig) { f.onClose() }
+
+// backpressureCase: the remote stops reading while writer goroutines and the
+// keepalive timer (hold 3 s) keep writing into a 4 KiB send buffer, then
+// resumes; every byte must still parse as whole messages and every
+// nil-returning WriteUpdate must appear exactly once (C04 on a real kernel).
+func backpressureCase(k int) rt.Result {
+	peerIP := fmt.Sprintf("127.0.10.%d", 10+k%200)
+	w, err := newWorld("")
+	if err != nil {
+		return rt.Result{Verdict: "inconclusive", Why: err.Error()}
+	}
+	lc := net.ListenConfig{Control: func(_, _ string, c syscall.RawConn) error {
+		return c.Control(func(fd uintptr) { syscall.SetsockoptInt(int(fd), syscall.SOL_SOCKET, syscall.SO_RCVBUF, 4096) })
+	}}
+	rl, err := lc.Listen(nil, "tcp", peerIP+":0")
+	if err != nil {
+		return rt.Result{Verdict: "inconclusive", Why: err.Error()}
+	}
+	defer rl.Close()
+	pl := newPlug()
+	w.srv.AddPeer(corebgp.PeerConfig{RemoteAddress: netip.MustParseAddr(peerIP), LocalAS: lAS, RemoteAS: rAS}, pl,
+		corebgp.WithPort(rl.Addr().(*net.TCPAddr).Port), corebgp.WithHoldTime(3), corebgp.WithIdleHoldTime(50*time.Millisecond),
+		corebgp.WithDialerControl(func(_, _ string, c syscall.RawConn) error {
+			return c.Control(func(fd uintptr) { syscall.SetsockoptInt(int(fd), syscall.SOL_SOCKET, syscall.SO_SNDBUF, 4096) })
+		}))
+	w.serve()
+	rl.(*net.TCPListener).SetDeadline(time.Now().Add(5 * time.Second))
+	c, err := rl.Accept()
+	if err != nil {
+		w.inconclusive("accept: %v", err)
+		w.close()
+		return w.result("", false, nil)
+	}
+	rc := newRconn(c)
+	if !rc.handshake(0x0a000101, 30) || !pl.wait(5*time.Second, func() bool { return pl.est == 1 }) {
+		w.inconclusive("handshake")
+		w.close()
+		return w.result("", false, nil)
+	}
+	// the remote must keep corebgp's hold timer (3 s) happy while it is not reading
+	stopKA := make(chan struct{})
+	go func() {
+		for {
+			select {
+			case <-stopKA:
+				return
+			case <-time.After(500 * time.Millisecond):
+				rc.send(wire.Keepalive())
+			}
+		}
+	}()
+	rc.pause(true)
+	type res struct {
+		g, i int
+		err  error
+	}
+	results := make(chan res, 4096)
+	var wg sync.WaitGroup
+	for g := 0; g < 4; g++ {
+		wg.Add(1)
+		go func(g int) {
+			defer wg.Done()
+			for i := 0; i < 40; i++ {
+				b := make([]byte, 2000+(g*40+i)%1500)
+				b[0], b[1], b[2] = 0xC4, byte(g), byte(i)
+				results <- res{g, i, pl.writer.WriteUpdate(b)}
+			}
+		}(g)
+	}
+	time.Sleep(2500 * time.Millisecond) // writers block; at least two keepalive ticks queue behind them
+	rc.pause(false)
+	done := make(chan struct{})
+	go func() { wg.Wait(); close(done) }()
+	select {
+	case <-done:
+	case <-time.After(20 * time.Second):
+		w.inconclusive("writers did not finish within 20 s after the remote resumed reading")
+	}
+	close(stopKA)
+	time.Sleep(300 * time.Millisecond)
+	w.close()
+	rc.waitEOF(5 * time.Second)
+	close(results)
+	ok := map[[2]byte]bool{}
+	for r := range results {
+		if r.err == nil {
+			ok[[2]byte{byte(r.g), byte(r.i)}] = true
+		}
+	}
+	ms, _, perr := rc.snapshot()
+	if perr != nil {
+		w.violate("with the remote not reading for 2.5 s, the bytes corebgp wrote are not whole well-formed messages: %v", perr)
+	} else {
+		seen := map[[2]byte]int{}
+		for _, m := range ms {
+			if m.Type == wire.TypeUpdate && len(m.Body) >= 3 && m.Body[0] == 0xC4 {
+				seen[[2]byte{m.Body[1], m.Body[2]}]++
+			}
+		}
+		for k := range ok {
+			if seen[k] != 1 {
+				w.violate("WriteUpdate (writer %d seq %d) returned nil under back-pressure but appears %d times on the wire", k[0], k[1], seen[k])
+				break
+			}
+		}
+	}
+	return w.result("backpressure", len(ok) > 0, map[string]int{"real_backpressure": 1, "writes_ok": len(ok)})
+}
+
 // ---------------------------------------------------------------- entry points
+
+func TestRealReadd(t *testing.T) {
+	c := rt.Get()
+	for i := 0; i < c.N(3, 40); i++ {
+		runCase(t, "real-readd", i, map[string]any{"scenario": "DeletePeer busy + AddPeer + reconnect"}, func() rt.Result { return readdCase(i) })
+	}
+}
+
+func TestRealBackpressure(t *testing.T) {
+	c := rt.Get()
+	for i := 0; i < c.N(2, 20); i++ {
+		runCase(t, "real-backpressure", i, map[string]any{"sndbuf": 4096, "pause": "2.5s", "hold": 3}, func() rt.Result { return backpressureCase(i) })
+	}
+}
+
 
 func TestRealSessions(t *testing.T) {
 	c := rt.Get()
